@@ -259,10 +259,7 @@ func TestC19Race(t *testing.T) {
 		iters = 3000
 	}
 	var n int64
-	for _, c := range lookupConcs(env.Deep()) {
-		allowed, _ := c.Serial()
-		n += c.FreeRunConc(rep, env, allowed, iters)
-	}
+	n = schedx.FreeRunAll(rep, env, lookupConcs(env.Deep()), true, iters)
 	rep.Add(n, 0, 0, 0)
 	rep.OutcomeN("free-running race-detector pass [iterations]", n)
 }
